@@ -274,6 +274,13 @@ class RgTarget:
                 res['obligations'] += self._exit_establishes(repo, R, mx, timeout_ms,
                                                              args=[ExcClass('UserError'), EV('UserError', ()), None],
                                                              name='prog/context-exit-cancels[exception]')
+            # entering: when __enter__ fails (writing to the terminal may fail: closed stream, a value that cannot be
+            # formatted), the `with` statement never calls __exit__, so nothing armed may be left behind; when it
+            # succeeds exactly the current timer is armed
+            me = cls.find('__enter__')
+            if me is not None:
+                res['functions_extra'].append(describe(me))
+                res['obligations'] += self._enter_failure(repo, cls, me, timeout_ms)
             res['paths'] = len(res['obligations'])
         except Unsupported as u:
             res['undecided'].append('unsupported construct: %s' % u)
@@ -317,5 +324,51 @@ class RgTarget:
                 out.append(discharge(ob, timeout_ms, None, {}))
         return out
 
+    def _enter_failure(self, repo, cls, m, timeout_ms):
+        from .engine import model
+        out = []
+        R = _registry()
+
+        @model
+        def io_may_fail(ip, args, kw):
+            if ip.may_raise('output-fails'):
+                raise PyRaise(Vv.ExcVal('ValueError', ('output',)))
+            return None
+        R.models['FileM.write'] = io_may_fail
+        R.models['FileM.flush'] = io_may_fail
+        from .interp import Builtin
+        R.overrides[('util', 'print')] = Builtin('print', io_may_fail.__wrapped__ if hasattr(io_may_fail, '__wrapped__') else io_may_fail)
+        work = [[]]
+        while work:
+            prefix = work.pop()
+            Vv.reset_fresh()
+            ip = Interp(repo, R, prefix, solver_timeout_ms=timeout_ms)
+            try:
+                o = ip.call(cls, [z3.Int('max_value'), '<title>'], {})
+                o.fields['_file'] = Obj('FileM', {})
+                raised = False
+                try:
+                    ip.call(m, [o], {})
+                except PyRaise:
+                    raised = True
+                timers = ip.ghost.get('timers_created', [])
+                armed = [to_z3(t.fields['armed']) for t in timers]
+                if raised:
+                    ip.prove('prog/enter-failure-leaves-no-timer', z3.Not(z3.Or(armed)) if armed else z3.BoolVal(True))
+                else:
+                    cur = o.fields.get('_timer')
+                    others = [to_z3(t.fields['armed']) for t in timers if t is not cur]
+                    ip.prove('prog/enter-arms-one-timer', z3.And(z3.BoolVal(isinstance(cur, Obj)),
+                                                                 to_z3(cur.fields['armed']) if isinstance(cur, Obj) else z3.BoolVal(False),
+                                                                 z3.Not(z3.Or(others)) if others else z3.BoolVal(True)))
+            except Vv.Infeasible:
+                pass
+            work.extend(ip.new_forks)
+            for ob in ip.obligations:
+                out.append(discharge(ob, timeout_ms, None, {}))
+        return out
+
     def replay(self, ob):
+        if 'enter' in ob['name']:
+            return {'func': 'enter_failure', 'inputs': {'obligation': ob['name']}}
         return {'func': 'timer_race', 'inputs': {'obligation': ob['name']}}
